@@ -298,6 +298,16 @@ func genCase(kind string) func(rt *rapid.T) pkgCase {
 			fk := rapid.SampledFrom([]string{"rowfmt", "rowfmt2"}).Draw(rt, "fmtkind")
 			f, r, _ := pkggen.GenWithFormat(rt, fk, ctx)
 			c.Pkgs = []rc.P{f, r}
+			// what stands between a row and its format in a real result set: the ORDER BY
+			// columns, earlier rows
+			switch rapid.IntRange(0, 3).Draw(rt, "between") {
+			case 1:
+				c.Pkgs = []rc.P{f, pkggen.Gen(rt, map[string]string{"rowfmt": "orderby", "rowfmt2": "orderby2"}[fk], ctx), r}
+			case 2:
+				c.Pkgs = []rc.P{f, r, r}
+			case 3:
+				c.Pkgs = []rc.P{f, pkggen.Gen(rt, map[string]string{"rowfmt": "orderby", "rowfmt2": "orderby2"}[fk], ctx), r, r}
+			}
 		case "params":
 			fk := rapid.SampledFrom([]string{"paramfmt", "paramfmt2"}).Draw(rt, "fmtkind")
 			f, r, _ := pkggen.GenWithFormat(rt, fk, ctx)
